@@ -666,18 +666,29 @@ class Gen:
         depth = f["max_depth"] if depth is None else depth
         q = Query()
         ctes = list(ctes or [])
-        if top and f["cte"] and self.chance(0.35):
-            for _ in range(self.pick([1, 1, 2])):
+        nested = (not top) and as_source and depth > 0 and f.get("nested_with") and f["cte"] and self.chance(0.25)
+        if (top and f["cte"] and self.chance(0.35)) or nested:
+            for n_cte in range(self.pick([1, 1, 2]) if not nested else 2):
                 self.cte_n += 1
-                cq = self.select(max(depth - 1, 0), as_source=True, ctes=ctes)
+                my_n = self.cte_n
+                name = f"cte{my_n}"
+                visible = ctes
+                if nested and n_cte == 0 and ctes and self.chance(0.7):
+                    # a nested WITH that re-defines a CTE name visible from the enclosing query: inside, the name
+                    # means the inner definition (the later sibling CTE and the body may refer to it). The new
+                    # definition's own body does not mention the name (engines disagree on what that would mean).
+                    name = self.pick(ctes)[0]
+                    visible = [c for c in ctes if c[0] != name]
+                    self.tags.add("cte:shadows-outer")
+                cq = self.select(max(depth - 1, 0), as_source=True, ctes=visible)
                 colnames = None
                 if f["cte_cols"] and self.chance(0.3):
-                    colnames = [f"cc{self.cte_n}_{i}" for i in range(len(cq.out))]
+                    colnames = [f"cc{my_n}_{i}" for i in range(len(cq.out))]
                     self.tags.add("cte:column-list")
-                entry = (f"cte{self.cte_n}", cq, colnames)
-                ctes.append(entry)
+                entry = (name, cq, colnames)
+                ctes = [c for c in ctes if c[0] != name] + [entry]
                 q.ctes.append(entry)
-            self.tags.add("cte")
+            self.tags.add("cte:nested" if nested else "cte")
         q.from_ = self.source(depth, ctes)
         scope = [q.from_]
         had_semi = False
